@@ -148,7 +148,7 @@ class Printer(sympy.printing.printer.Printer):
         # Adjust precedence to put brackets around 1/x if necessary
         if isinstance(expr, sympy.Pow) and expr.is_commutative and \
                 (-expr.exp is sympy.S.Half or -expr.exp is sympy.S.One):
-            expr_prec -= 1
+            expr_prec = PRECEDENCE['Mul']
 
         if expr_prec < parent_prec:
             return '(' + self._print(expr) + ')'
@@ -277,9 +277,6 @@ class Printer(sympy.printing.printer.Printer):
             expr = _keep_coeff(-c, e)
             sign = '-'
 
-        # Collect all pows with more than one base element and exp = -1
-        pow_brackets = []
-
         # Gather terms for numerator and denominator
         a, b = [], []
         for item in sympy.Mul.make_args(expr):
@@ -297,12 +294,6 @@ class Printer(sympy.printing.printer.Printer):
                     # Add without power
                     b.append(sympy.Pow(item.base, -item.exp))
 
-                    # Check if it's a negative power that needs brackets
-                    # Sympy issue #14160
-                    if (len(item.args[0].args) != 1
-                            and isinstance(item.base, sympy.Mul)):
-                        pow_brackets.append(item)
-
             # Split Rationals over a and b, ignoring any 1s
             elif item.is_Rational:
                 if item.p != 1:
@@ -318,13 +309,8 @@ class Printer(sympy.printing.printer.Printer):
 
         # Convert terms to code
         a_str = [self._bracket(x, my_prec) for x in a]
-        b_str = [self._bracket(x, my_prec) for x in b]
-
-        # Fix brackets for Pow with exp -1 with more than one Symbol
-        for item in pow_brackets:
-            assert item.base in b, "item.base should be kept in b for powers"
-            b_str[b.index(item.base)] = \
-                '(' + b_str[b.index(item.base)] + ')'
+        # A denominator that is itself printed as a product or quotient needs brackets
+        b_str = [self._bracket(x, my_prec + 1) for x in b]
 
         # Combine numerator and denomenator and return
         a_str = sign + ' * '.join(a_str)
